@@ -57,6 +57,9 @@ type FuncReport struct {
 
 // buildQuery renders one obligation as an SMT-LIB script.
 func buildQuery(vc *VC, o *Obligation) string {
+	if o.Raw != "" {
+		return o.Raw
+	}
 	var sb strings.Builder
 	sb.WriteString("; obligation: " + o.Name + "\n; source: " + o.Src + "\n")
 	sb.WriteString(smtPrelude)
@@ -137,7 +140,7 @@ func verifyFunction(P *Program, CS *ContractSet, L *Layout, ct *FuncContract, op
 	nObl := len(vc.obls)
 	for i := 0; i < nObl; i++ {
 		o := vc.obls[i]
-		if o.Kind == "vacuity" || o.Kind == "target" || o.Kind == "frame" || !strings.HasPrefix(o.Goal, "(=> ") {
+		if o.Kind == "vacuity" || o.Kind == "target" || o.Kind == "frame" || o.Kind == "binds" || !strings.HasPrefix(o.Goal, "(=> ") {
 			continue
 		}
 		parts := splitSexp(o.Goal[4 : len(o.Goal)-1])
